@@ -18,12 +18,20 @@ MCKnown   == {"basic1"}
 MCCreds   == {"none", "good", "bad", "malformed"}
 MCNoAuthSchemes == {""}
 MCNoAuthCreds   == {"none"}
+\* chain lengths around the places where implementations bound or batch their work
+MCPresNone == {0}
+MCSufsNone == {0}
+MCPresLong == {0, 1, 2, 15, 16, 17, 40, 200}
+MCSufsLong == {0, 1, 20}
+MCFillsOne == {"out4"}
+MCFillsAll == MCAddrs
 MCHttp == {"http"}
 MCTcp  == {"tcp"}
 MCBoth == {"http", "tcp"}
 
 CaseJson(r, q) == [allow |-> r.allow, deny |-> r.deny,
                    proto |-> q.proto, peer |-> q.peer, xff |-> q.xff, scheme |-> q.scheme, creds |-> q.creds,
+                   pre |-> q.pre, suf |-> q.suf, fill |-> q.fill,
                    may |-> MayAdmit(r, q), must |-> MustAdmit(r, q), auth |-> AuthOK(q),
                    outcomes |-> Outcomes(r, q)]
 
